@@ -651,6 +651,21 @@ func (g *fnGen) evalBin(x *SBin, env *evalEnv) (string, types.Type, error) {
 		}
 		return t, tBool_, nil
 	case "<", "<=", ">", ">=":
+		if ta != nil && tb != nil && isString(ta) && isString(tb) {
+			// the same uninterpreted ordering the code's string comparisons are translated to
+			sym := q("strless")
+			g.R.declareFun(sym, "(declare-fun |strless| (Int Int) Bool)")
+			switch x.Op {
+			case "<":
+				return S(sym, a, b), tBool_, nil
+			case ">":
+				return S(sym, b, a), tBool_, nil
+			case "<=":
+				return Not(S(sym, b, a)), tBool_, nil
+			default:
+				return Not(S(sym, a, b)), tBool_, nil
+			}
+		}
 		if g.sortOfSpec(ta) == "Int" && g.sortOfSpec(tb) == "Real" {
 			a = S("to_real", a)
 		} else if g.sortOfSpec(ta) == "Real" && g.sortOfSpec(tb) == "Int" {
